@@ -147,24 +147,35 @@ def snap(v):
 
 
 def snap_diff(a, b, path):
+    """Human-readable first difference between two snapshots (None when equal)."""
     if a == b:
         return None
-    if a[0] == b[0] and isinstance(a[1], list) and isinstance(b[1], list) and len(a[1]) == len(b[1]):
+    if a[0] != b[0] or not isinstance(a[1], list) or not isinstance(b[1], list):
+        return "%s: %s became %s" % (path, _show(a), _show(b))
+    if a[0] in ("dict", "Obj", "OrderedDict") or (a[1] and isinstance(a[1][0], tuple) and isinstance(a[1][0][0], tuple)):
+        ka, kb = [k for k, _ in a[1]], [k for k, _ in b[1]]
+        if ka != kb:
+            return "%s: keys %s became %s" % (path, [k[1] for k in ka], [k[1] for k in kb])
+        for (k, x), (_, y) in zip(a[1], b[1]):
+            if x != y:
+                return snap_diff(x, y, "%s[%s]" % (path, k[1]))
+    if a[0] == "Obj":
+        return snap_diff(a[1], b[1], path + ".__dict__")
+    if len(a[1]) == len(b[1]) and a[0] in ("list", "tuple", "deque", "ChainMap"):
         for i, (x, y) in enumerate(zip(a[1], b[1])):
             if x != y:
-                if isinstance(x, tuple) and len(x) == 2 and isinstance(x[0], tuple) and isinstance(y, tuple) and x[0] == y[0]:
-                    return snap_diff(x[1], y[1], "%s[%s]" % (path, x[0][1]))
-                if isinstance(x, tuple) and isinstance(y, tuple) and len(x) == 2 and len(y) == 2 and isinstance(x[0], str):
-                    return snap_diff(x, y, "%s[%d]" % (path, i))
-                break
+                return snap_diff(x, y, "%s[%d]" % (path, i))
     return "%s: %s became %s" % (path, _show(a), _show(b))
 
 
 def _show(s):
     t, v = s
+    if t == "Obj":
+        return "Obj" + _show(v)
     if isinstance(v, list):
-        return "%s%r" % (t, [(_show(x) if isinstance(x, tuple) and len(x) == 2 and isinstance(x[0], str) else
-                              tuple(_show(y) for y in x)) for x in v])
+        if v and isinstance(v[0], tuple) and isinstance(v[0][0], tuple):
+            return "%s{%s}" % (t, ", ".join("%s: %s" % (k[1], _show(x)) for k, x in v))
+        return "%s[%s]" % (t, ", ".join(_show(x) for x in v))
     return v
 
 
@@ -644,7 +655,7 @@ TYPED = [
     ("namespace container_arg", "{%% set ns = namespace(%(dict)s) %%}{%% set ns.z = I %%}{{ ns.z }}{{ ns.a|default('-') }}"),
     ("namespace container_arg", "{%% set ns = namespace(%(dict)s, z=%(list)s) %%}{%% set ns.a = W %%}{{ ns.a }}{{ ns.z }}"),
     ("container_arg", "{%% set c = cycler(%(any)s, %(any)s) %%}{{ c.next() }}{{ c.next() }}{{ c.current }}{%% do c.reset() %%}{{ c.next() }}"),
-    ("container_arg", "{%% if %(list)s %%}{%% set c = cycler(*%(list)s) %%}{{ c.next() }}{{ c.next() }}{{ c.next() }}{%% endif %%}"),
+    ("container_arg", "{%% if %(list)s %%}{%% set c = cycler(*%(same)s) %%}{{ c.next() }}{{ c.next() }}{{ c.next() }}{%% endif %%}"),
     ("", "{%% set j = joiner(W) %%}{%% for x in %(list)s %%}{{ j() }}{{ x }}{%% endfor %%}{{ j() }}"),
     ("", "{%% set x = %(list)s %%}{%% set x = x + [I] %%}{{ x }}{%% set a, b = %(list)s, %(dict)s %%}{{ a }}{{ b }}"),
     ("", "{%% with l = %(list)s, d = %(dict)s %%}{{ l|length }}{{ d|length }}{%% endwith %%}"),
@@ -708,10 +719,12 @@ def _strategy(sizes):
 
     def fill(draw, pattern):
         out, pos = [], 0
-        for m in re.finditer(r"%\((list|dict|any|copy|dcopy)\)s", pattern):
+        for m in re.finditer(r"%\((list|dict|any|copy|dcopy|same)\)s", pattern):
             out.append(pattern[pos:m.start()].replace("%%", "%"))
             k = m.group(1)
-            if k == "list":
+            if k == "same":
+                out.append(out[-2])  # the variable drawn for the previous placeholder
+            elif k == "list":
                 out.append(draw(st.sampled_from(LISTS)))
             elif k == "dict":
                 out.append(draw(st.sampled_from(DICTS)))
